@@ -1024,3 +1024,126 @@ func checkC03Handed(c *Ctx, n int) {
 		})
 	}
 }
+
+// checkC07Repeated: SEVERAL unknown options on one line under an identity handler — the same token twice or three
+// times in a row, the same token with something between, different tokens in a row, with and without inline
+// arguments: the handler is called exactly once for EACH of them, in order, each time with the name, the inline
+// argument and exactly the arguments not yet consumed; since it returns them unchanged, parsing goes on behind each.
+func checkC07Repeated(c *Ctx, n int) {
+	r := c.Rng
+	for i := 0; i < n; i++ {
+		root := &StructDesc{Fields: []FieldDesc{
+			{Name: "Verbose", Exported: true, Kind: "v", Ty: "Lbool", Tag: `short:"v" long:"verbose"`},
+			{Name: "Name", Exported: true, Kind: "v", Ty: "Lstr", Tag: `short:"n" long:"name"`}}}
+		cs := &Case{Name: "app", NsDelim: ".", EnvNsDelim: "_", Handler: "identity"}
+		if r.Intn(2) == 0 {
+			cs.Opts |= flags.PassDoubleDash
+		}
+		cs.Build = []BuildOp{{Kind: "addgroup", Target: 1, Short: "Application Options", Struct: root}}
+		unk := [][2]string{{"--trace", "trace"}, {"-x", "x"}, {"--trace=1", "trace"}, {"-é", "é"}, {"-x=7", "x"}, {"--t", "t"}}
+		type ev struct{ name, arg string }
+		var argv []string
+		var want []ev
+		var wantRest [][]string // filled afterwards
+		var posOfUnknown []int
+		add := func(u [2]string) {
+			posOfUnknown = append(posOfUnknown, len(argv))
+			argv = append(argv, u[0])
+			a := "-"
+			if k := strings.Index(u[0], "="); k >= 0 {
+				a = u[0][k+1:]
+			}
+			want = append(want, ev{u[1], a})
+		}
+		known := func() {
+			switch r.Intn(3) {
+			case 0:
+				argv = append(argv, "-v")
+			case 1:
+				argv = append(argv, "--name=k")
+			case 2:
+				argv = append(argv, "word")
+			}
+		}
+		for j := r.Intn(2); j > 0; j-- {
+			known()
+		}
+		u := unk[r.Intn(len(unk))]
+		switch r.Intn(4) {
+		case 0: // the same token twice in a row
+			add(u)
+			add(u)
+		case 1: // three times
+			add(u)
+			add(u)
+			add(u)
+		case 2: // the same token with something between
+			add(u)
+			known()
+			add(u)
+		case 3: // different tokens in a row
+			add(u)
+			add(unk[r.Intn(len(unk))])
+		}
+		for j := r.Intn(3); j > 0; j-- {
+			known()
+		}
+		for _, p := range posOfUnknown {
+			wantRest = append(wantRest, argv[p+1:])
+		}
+		var words []string
+		for _, a := range argv {
+			if a == "word" {
+				words = append(words, a)
+			}
+		}
+		cs.Ops = []Op{{Kind: "parse", Args: argv}}
+		cs.Description = describeOps(cs)
+		c.RunCases([]*Case{cs}, func(cr *CaseResult) {
+			c.classifyCase(cr)
+			if cr.Real == nil || cr.Real.dead {
+				return
+			}
+			var obs parseObs
+			for _, o := range parseBlocks(cr) {
+				obs = o
+			}
+			var calls [][]string
+			for _, l := range obs.logs {
+				if strings.HasPrefix(l, "LOG unknown ") {
+					calls = append(calls, strings.Fields(l)[2:])
+				}
+			}
+			c.Class(fmt.Sprintf("c07/repeated: unknown options on the line=%d", len(want)))
+			ok := obs.panic == "" && obs.errKind == "ok" && len(calls) == len(want) &&
+				(fmt.Sprintf("%q", obs.ret) == fmt.Sprintf("%q", words) || (len(obs.ret) == 0 && len(words) == 0))
+			if ok {
+				for k, cl := range calls {
+					name, _ := unhx(cl[0])
+					arg := "-"
+					if cl[1] != "-" {
+						arg, _ = unhx(cl[1])
+					}
+					if name != want[k].name || arg != want[k].arg || strings.Join(cl[2:], " ") != hxList(wantRest[k]) {
+						ok = false
+					}
+				}
+			}
+			in := map[string]interface{}{"case": cs.Description, "argv": argv}
+			if !ok {
+				in["case_file"] = c.saveCase(cr)
+			}
+			var wantS []string
+			for k, w := range want {
+				wantS = append(wantS, fmt.Sprintf("(%q, argument %q, arguments %q)", w.name, w.arg, wantRest[k]))
+			}
+			var gotS []string
+			for _, cl := range calls {
+				gotS = append(gotS, strings.Join(decodeAll(cl, 40), " "))
+			}
+			c.Check("the-handler-is-called-once-for-every-unknown-option", ok, "C07:repeated-unknown",
+				in, fmt.Sprintf("%s %s type %d %q remaining %q, handler calls %q", obs.panic, obs.errKind, obs.errType, obs.errMsg, obs.ret, gotS),
+				fmt.Sprintf("success, remaining %q, handler calls %s", words, strings.Join(wantS, " ")))
+		})
+	}
+}
